@@ -34,7 +34,7 @@ def long_traces(ck, seed):
     """A few long traces over the forests on 3 points (>= 11 distinct trees, ties, two chains finishing out of order),
     given to SummariesMap as FixedTraces so that TLC scans them and prints their admissible outputs."""
     rs = random.Random(seed + 77)
-    r0 = tlc.run_tlc("c11_universe", "Density", tlc.cfg_text(constants={"N": 3, "OutliersOn": "TRUE", "Dump": "TRUE"}, invariants=["FeatConsistent", "Emit"]), timeout=600)
+    r0 = tlc.run_tlc("c11_universe", "Density", tlc.cfg_text(constants={"N": 3, "OutliersOn": "TRUE", "Dump": "TRUE", "Starts": "{}"}, invariants=["FeatConsistent", "Emit"]), timeout=600)
     tlc.require_ok(r0, "forest universe")
     forests = [absstate.canon(x["st"]) for x in r0.json_prints if absstate.data_ids(absstate.canon(x["st"])) == {0, 1, 2}]
     forests.sort(key=absstate.key_str)
